@@ -1,6 +1,7 @@
 package vc
 
 import (
+	"encoding/json"
 	"fmt"
 	"go/token"
 	"go/types"
@@ -14,7 +15,14 @@ import (
 	"golang.org/x/tools/go/ssa/ssautil"
 )
 
+// FuncBinding records the parameter and local variable names of a function as they were when its contract was written.
+type FuncBinding struct {
+	Params []string
+	Locals []string
+}
+
 type Env struct {
+	Bindings map[string]*FuncBinding
 	Repo    string
 	Module  string
 	Fset    *token.FileSet
@@ -105,6 +113,13 @@ func Load(repo string, mirror string) (*Env, error) {
 		env.Specs[p.PkgPath] = sf
 		env.SpecSrc[p.PkgPath] = src + ":" + strings.Join(files, ",")
 	}
+	// recorded variable names of the functions under contract (for rename-robust attachment)
+	env.Bindings = map[string]*FuncBinding{}
+	if mirror != "" {
+		if b, err := os.ReadFile(filepath.Join(mirror, "bindings.json")); err == nil {
+			json.Unmarshal(b, &env.Bindings)
+		}
+	}
 	// common trusted library contracts
 	if mirror != "" {
 		files, _ := filepath.Glob(filepath.Join(mirror, "_common", "*.go"))
@@ -180,6 +195,24 @@ func anonKey(f *ssa.Function) string {
 
 func (env *Env) FindFunc(pkgPath, key string) *ssa.Function {
 	return env.funcs[pkgPath+"|"+key]
+}
+
+// RecordBindings returns the parameter/local names of every module function that has a (non-extern) contract, keyed
+// by "<package path>|<function key>".
+func (env *Env) RecordBindings() map[string]*FuncBinding {
+	out := map[string]*FuncBinding{}
+	for k, fn := range env.funcs {
+		if fn == nil || len(fn.Blocks) == 0 {
+			continue
+		}
+		ct, _ := env.lookupContractFrom(fn, fnPkgPath(fn))
+		if ct == nil || ct.Extern {
+			continue
+		}
+		params, locals, _ := NamedLocals(fn)
+		out[k] = &FuncBinding{Params: params, Locals: locals}
+	}
+	return out
 }
 
 func (env *Env) FuncKeys(pkgPath string) []string {
